@@ -151,7 +151,11 @@ class NDCollection(dict):
             if item_is_strings:
                 new_data = [self[_item] for _item in item]
                 new_keys = item
-                new_aligned_axes = tuple([self.aligned_axes[item_] for item_ in item])
+                # Aligned axes is not a required parameter and may be None
+                if self.aligned_axes is None:
+                    new_aligned_axes = None
+                else:
+                    new_aligned_axes = tuple([self.aligned_axes[item_] for item_ in item])
 
             # Else, the item is assumed to be a typical slicing item.
             # Slice each cube in collection using information in this item.
@@ -285,7 +289,9 @@ class NDCollection(dict):
 
     def __delitem__(self, key):
         super().__delitem__(key)
-        self.aligned_axes.__delitem__(key)
+        # Aligned axes is not a required parameter and may be None
+        if self.aligned_axes is not None:
+            self.aligned_axes.__delitem__(key)
 
     def __setitem__(self, key, value):
         raise NotImplementedError("NDCollection does not support __setitem__. "
